@@ -229,8 +229,9 @@ impl SchedulerCore {
 
         // Find the first thread that is not marked as busy and schedule this task on it
         for &(ref busy_rc, ref thread) in threads.iter() {
-            if let Ok(mut busy) = busy_rc.try_lock() {
-                // If the busy lock is held, then we consider the thread to be busy
+            // A thread holds its busy lock while it fetches its next queue. Waiting for that lock (rather than treating
+            // a held lock as 'busy') means that a thread that's about to go dormant is seen as dormant and gets woken up again
+            if let Ok(mut busy) = busy_rc.lock() {
                 if !*busy {
                     // Clone the busy mutex so we can return this thread to readiness
                     let also_busy =  busy_rc.clone();
